@@ -390,3 +390,47 @@ func checkMessagesNotMutated(p *Prog, r *Report, clause string, msgs []*types.Na
 	}
 	r.Floor("message-entry-points-checked-for-mutation", n, 42)
 }
+
+// checkRequestsNotMutated: the hand-written methods of a module's query request types (ValidateBasic and friends) leave the
+// request as the client sent it: a handler that validates and then looks up must look up what was asked for, not a rewritten
+// (trimmed, lower-cased, defaulted) identifier that names another entry.
+func checkRequestsNotMutated(p *Prog, r *Report, clause, typesPkg string) {
+	rule := "validation of a query request does not rewrite the request: the entry looked up is the one the client named"
+	n := 0
+	pk := p.All[Rel(typesPkg)]
+	if pk == nil {
+		r.Fail("MSGMUT:"+clause+":"+typesPkg+"#anchor", "anchor", typesPkg, "package not loaded")
+		return
+	}
+	sc := pk.Types.Scope()
+	for _, name := range sc.Names() {
+		if !strings.HasPrefix(name, "Query") || !strings.HasSuffix(name, "Request") {
+			continue
+		}
+		tn, ok := sc.Lookup(name).(*types.TypeName)
+		if !ok {
+			continue
+		}
+		nn, ok := tn.Type().(*types.Named)
+		if !ok {
+			continue
+		}
+		ms := p.SSA.MethodSets.MethodSet(types.NewPointer(nn))
+		for i := 0; i < ms.Len(); i++ {
+			fn := p.SSA.MethodValue(ms.At(i))
+			if fn == nil || fn.Blocks == nil || p.IsGenerated(fn) || fn.Synthetic != "" {
+				continue
+			}
+			n++
+			key := fmt.Sprintf("MSGMUT:%s:%s.%s#read-only", clause, name, fn.Name())
+			ws := writesThrough(p, fn, 0, 0, "", map[string]bool{})
+			if len(ws) == 0 {
+				r.OK(key, rule, p.FnPos(fn), "no write into memory reachable from the receiver (call depth ≤ 3)")
+				continue
+			}
+			w := ws[0]
+			r.Fail(key, rule, p.Pos(w.Instr.Pos()), fmt.Sprintf("%s.%s rewrites the request it is called on: %s in %s (reached via %s): a handler that calls it answers for the rewritten identifier, so two different requests get the same answer and the single-item view disagrees with the listings", name, fn.Name(), w.How, FuncName(w.Fn), w.Chain))
+		}
+	}
+	r.Count("hand-written-request-methods("+typesPkg+")", n)
+}
